@@ -241,6 +241,14 @@ func (q *Q) heapGet(h *Heap, key string) Term {
 				q.lines = append(q.lines, fmt.Sprintf("(assert (forall ((b Int)) (! (=> (and (< b %s) (< (- (* 64 %s)) b)) (= (select %s b) (select %s b))) :pattern ((select %s b)))))",
 					a.S, a.S, name, old.S, name))
 			}
+			if h.gen.parent != nil && h.gen.keepOld != nil && strings.HasPrefix(key, "F:") && strings.HasPrefix(sort, "(Array Int ") && h.gen.keepOld(key) {
+				// fields of the objects that existed before the havoc are unchanged (only objects allocated by the
+				// havocing code get this field written)
+				old := q.heapGet(h.gen.parent, key)
+				a := q.heapGet(h.gen.parent, allocKey)
+				q.lines = append(q.lines, fmt.Sprintf("(assert (forall ((p Int)) (! (=> (and (< 0 p) (< p %s)) (= (select %s p) (select %s p))) :pattern ((select %s p)))))",
+					a.S, name, old.S, name))
+			}
 		}
 		t = Term{name, sort}
 	} else {
